@@ -180,7 +180,13 @@ def judge_mc(case) -> Outcome:
     out.classes += [f'draw_vars={len(names_sorted)}',
                     'order_differs' if appearance != names_sorted else 'order_same']
     out.classes += [('user:' if t in case['user_types'] else 'native:') + t for t in set(types)]
-    prefix = ''.join(f'[{f}]' for f in sorted(features(case, root)))
+    feats = features(case, root)
+    for n in refsem.walk(root, case['shared']):
+        if n[0] == 'LogLogit':
+            subs = [n[1]] + [av for _, _, av in n[2] if av is not None]
+            if any(m[0] == 'Draws' for sub in subs for m in refsem.walk(sub, case['shared'])):
+                feats.add('draws_in_logit_availability')
+    prefix = ''.join(f'[{f}]' for f in sorted(feats))
     res = isolate.call(_observe_mc, case)
     if not res['ok']:
         out.fail(f'{prefix}mc:raises:{res["exc_type"]}',
@@ -276,6 +282,16 @@ def strat_integrate(draw, tier):
     def coef():
         return g.real(1)
 
+    def slope():
+        # moderate slopes: a fixed-node quadrature cannot resolve near-step functions
+        v = draw(gen.dyadic(-2, 2))
+        if draw(st.booleans()):
+            return ['Num', v]
+        free = [n for n in gen.BETA_NAMES if n not in g.betas]
+        b = ['Beta', free[0], v, None, None, draw(st.sampled_from([0, 0, 1]))]
+        g.betas[free[0]] = b
+        return b
+
     kind = draw(st.sampled_from(['poly', 'poly', 'expquad', 'logistic', 'mixed']))
     rv = ['RV', w]
     if kind == 'poly':
@@ -288,13 +304,13 @@ def strat_integrate(draw, tier):
         # moderate curvature only: the property speaks of normally decaying integrands, and a
         # fixed-node quadrature cannot resolve arbitrarily narrow peaks
         c = draw(st.one_of(gen.dyadic(0, 1.0), st.just(0.0)))
-        body = ['exp', ['Minus', ['Plus', coef(), ['Times', coef(), rv]],
+        body = ['exp', ['Minus', ['Plus', coef(), ['Times', slope(), rv]],
                         ['Times', ['Num', c], ['PowC', rv, 2.0]]]]
     elif kind == 'logistic':
-        lin = ['Plus', coef(), ['Times', coef(), rv]]
+        lin = ['Plus', coef(), ['Times', slope(), rv]]
         body = ['Divide', ['Num', 1.0], ['Plus', ['Num', 1.0], ['exp', ['Neg', lin]]]]
     else:
-        lin = ['Plus', coef(), ['Times', coef(), rv]]
+        lin = ['Plus', coef(), ['Times', slope(), rv]]
         body = ['Times', ['Plus', coef(), ['Times', coef(), rv]],
                 ['Divide', ['Num', 1.0], ['Plus', ['Num', 1.0], ['exp', lin]]]]
     integrand = ['Times', body, _density(w)]
@@ -438,11 +454,8 @@ def judge_derive(case) -> Outcome:
 
     if shared_under_value_only_context(case, root):
         feats.add('shared_subtree_also_under_comparison')
-    for n in refsem.walk(root, case['shared']):
-        if n[0] == 'LinUtil':
-            if (kind == 'var' and any(x[1] == name for _, x in n[1])) or \
-                    (kind == 'beta' and any(b[1] == name and b[5] != 0 for b, _ in n[1])):
-                feats.add('linutil_derivative_wrt_non_free_literal')
+    if any(n[0] == 'LinUtil' for n in refsem.walk(root, case['shared'])):
+        feats.add('linutil_under_derive')
     prefix = ''.join(f'[{f}]' for f in sorted(feats))
     res = isolate.call(_observe_plain_betas, case)
     if not res['ok']:
@@ -468,17 +481,17 @@ def _observe_plain_betas(case):
 
 
 SUBCHECKS = [
-    SubCheck('montecarlo', strat_mc, judge_mc, render_mc, dict(quick=1600, thorough=40000),
+    SubCheck('montecarlo', strat_mc, judge_mc, render_mc, dict(quick=1000, thorough=40000),
              'integrands over 1-3 draw variables (user-defined deterministic and native types, names whose sorted '
              'order differs from their order of appearance) x R x rows; recorded generator output vs draw table vs '
              'mean over draws; seed reproducibility; non-trivial: >= 2 draw variables of different types, '
              'appearance order != sorted order, R >= 3', max_skip_fraction=0.3),
     SubCheck('integrate', strat_integrate, judge_integrate,
-             lambda c: refsem.render(c['roots'][0])[:400], dict(quick=800, thorough=20000),
+             lambda c: refsem.render(c['roots'][0])[:400], dict(quick=500, thorough=20000),
              'g(w) x normal density, g in {polynomial, exp of concave quadratic, logistic of linear, mixed} with '
              'data/parameter coefficients, vs scipy quad; non-trivial: contains a parameter', max_skip_fraction=0.3),
     SubCheck('derive', strat_derive, judge_derive,
-             lambda c: refsem.render(c['roots'][0], c['shared'])[:400], dict(quick=1200, thorough=30000),
+             lambda c: refsem.render(c['roots'][0], c['shared'])[:400], dict(quick=800, thorough=30000),
              'Derive(random differentiable tree, name) w.r.t. a parameter or a variable vs reference jets; '
              'non-trivial: non-zero derivative, >= 5 nodes', max_skip_fraction=0.6),
 ]
